@@ -462,22 +462,30 @@ def _r2_rowflow(ctx, f, pool, sites, sel, sch):
 
 
 def r3(ctx):
-    for qual in ("create._DBCreator.create", "create._DBCreator.update", "interface.FeatureDB.update"):
-        f = ctx.proj.maybe_func(qual)
-        if f is None:
-            if qual == "create._DBCreator.update":
-                continue
-            ctx.require(False, "anchor vanished: %s" % qual)
-        ctx.touch(f)
-        cfg = cfg_of(f)
-        pop = [c for c in calls_in(f.node) if call_attr(c) == "_populate_from_lines"]
-        upd = [c for c in calls_in(f.node) if call_attr(c) == "_update_relations"]
-        ctx.require(pop and upd, "%s no longer calls _populate_from_lines and _update_relations" % qual)
-        for u in upd:
-            ok = any(cfg.dominates(cfg.node_for(p).id, cfg.node_for(u).id) and cfg.node_for(p).id != cfg.node_for(u).id
-                     and cfg.node_for(u).id in cfg.reachable(cfg.node_for(p).id) for p in pop)
-            ctx.ob("R3", ok, "second-level relations are computed after all lines are imported (%s)" % f.name, node=u, func=f,
-                   sig="%s: closure %s population" % (f.name, "after" if ok else "not dominated by"))
+    """The drivers evaluated on the model database: create() and FeatureDB.update() must leave the two-level Parent graph,
+    which they do only if second-level relations are computed after all lines are stored."""
+    from . import scen
+    cr = require_func(ctx, "create._DBCreator.create")
+    lines = scen.gff_lines()[::-1]          # children before parents
+    im, t = scen.run_create(ctx, "_GFFDBCreator", lines)
+    ids = [f.attrs["id"] for f in lines]
+    want = scen.expected_relations(lines, ids)
+    got = set(im.table("relations")) if t.result[0] == "return" else None
+    ctx.ob("R3", got == want, "create(): second-level relations are computed after all lines are imported (children-first file)", func=cr,
+           sig="create(): closure after population" if got == want else "create(): %s" % (str(t.result[:3]) if got is None else "missing %s unexpected %s" % (sorted(want - got)[:3], sorted(got - want)[:3])))
+    up = require_func(ctx, "interface.FeatureDB.update")
+    if got is None:
+        return
+    it, me, conn, t0 = scen.open_feature_db(ctx, im.db)
+    if not scen.returned(ctx, t0, "FeatureDB(dbfn) on the created database", func=up, rule="R3"):
+        return
+    more = [scen.feature("N2", "match_part", 10, 20, {"ID": ["p2"], "Parent": ["e9"]}), scen.feature("N1", "exon", 460, 480, {"ID": ["e9"], "Parent": ["t1"]})]
+    t = scen.call_method(ctx, it, me, "interface.FeatureDB.update", data=list(more), make_backup=False)
+    allf = lines + more
+    want = scen.expected_relations(allf, [f.attrs["id"] for f in allf])
+    got = set(im.db.rows("relations")) if t.result[0] == "return" else None
+    ctx.ob("R3", got == want, "update(): second-level relations are computed after all new lines are imported (child line before its parent line)", func=up,
+           sig="update(): closure after population" if got == want else "update(): %s" % (str(t.result[:3]) if got is None else "missing %s unexpected %s" % (sorted(want - got)[:3], sorted(got - want)[:3])))
 
 
 def r4(ctx, sch):
